@@ -40,10 +40,21 @@ type ECall struct {
 type EQuant struct {
 	Forall bool
 	Var    string
-	Typ    string // "" = int (untyped references included); "string", "*T", "pkg.T": all values of that type
+	VarTyp string // "" / "int": integer variable; "string": string variable (map keys)
 	Lo, Hi Expr // nil when unbounded
 	Body   Expr
 }
+
+// varSort is the SMT sort of the bound variable.
+func (q *EQuant) varSort() Sort {
+	if q.VarTyp == "string" {
+		return SStr
+	}
+	return SInt
+}
+// isRef: the bound variable ranges over the references of a struct type ("*T").
+func (q *EQuant) isRef() bool { return strings.HasPrefix(q.VarTyp, "*") }
+
 type ECond struct{ C, A, B Expr }
 
 // EMethod is "x.Name(args)": a package-qualified function or macro when x is
@@ -254,6 +265,18 @@ func (ps *parser) unary() (Expr, error) {
 			return nil, fmt.Errorf("quantifier variable expected at %d in %q", v.pos, ps.src)
 		}
 		q := &EQuant{Forall: t.text == "forall", Var: v.text}
+		if ps.peek().kind == "ident" && (ps.peek().text == "string" || ps.peek().text == "int") {
+			q.VarTyp = ps.next().text
+		} else if ps.peek().kind == "op" && ps.peek().text == "*" {
+			// "*T": the variable ranges over the references to objects of
+			// the named struct type T of the contract's package
+			ps.next()
+			tn := ps.next()
+			if tn.kind != "ident" {
+				return nil, fmt.Errorf("type name expected after * at %d in %q", tn.pos, ps.src)
+			}
+			q.VarTyp = "*" + tn.text
+		}
 		if ps.peek().kind == "ident" && ps.peek().text == "in" {
 			ps.next()
 			lo, err := ps.expr(7)
@@ -268,19 +291,6 @@ func (ps *parser) unary() (Expr, error) {
 				return nil, err
 			}
 			q.Lo, q.Hi = lo, hi
-		} else if !ps.isOp("::") {
-			// "forall k string :: ..." / "forall c *controller :: ...": the
-			// bound variable ranges over all values of that type
-			for !ps.isOp("::") && ps.peek().kind != "eof" {
-				t := ps.next()
-				if t.kind != "ident" && !(t.kind == "op" && (t.text == "*" || t.text == ".")) {
-					return nil, fmt.Errorf("type expected after quantifier variable at %d in %q", t.pos, ps.src)
-				}
-				q.Typ += t.text
-			}
-			if q.Typ == "int" {
-				q.Typ = ""
-			}
 		}
 		if err := ps.expect("::"); err != nil {
 			return nil, err
@@ -491,6 +501,7 @@ type FuncContract struct {
 	Uses      []string // lemmas assumed at entry (proved separately)
 	PostUses  []string // lemmas assumed at every return
 	CallSites []*CallSiteSpec
+	EntrySets []*CallSiteSpec // "at entry set g = E": ghost assignments at function entry
 	Raw       []string
 }
 
@@ -528,6 +539,7 @@ func (fc *FuncContract) merge(o *FuncContract) {
 	fc.Uses = append(fc.Uses, o.Uses...)
 	fc.PostUses = append(fc.PostUses, o.PostUses...)
 	fc.CallSites = append(fc.CallSites, o.CallSites...)
+	fc.EntrySets = append(fc.EntrySets, o.EntrySets...)
 	fc.Raw = append(fc.Raw, o.Raw...)
 }
 
@@ -537,6 +549,33 @@ type CallSiteSpec struct {
 	Callee  string
 	Ordinal int
 	Clause  *Clause
+	Target  string // "set" clauses: the scalar ghost that is assigned
+}
+
+// setGhosts names the ghosts this contract assigns with "set" clauses.
+func (fc *FuncContract) setGhosts() []string {
+	var out []string
+	seen := map[string]bool{}
+	for _, l := range [][]*CallSiteSpec{fc.EntrySets, fc.CallSites} {
+		for _, cs := range l {
+			if cs.Target != "" && !seen[cs.Target] {
+				seen[cs.Target] = true
+				out = append(out, cs.Target)
+			}
+		}
+	}
+	return out
+}
+
+// parseSet splits "g = E" of a set clause.
+func parseSet(src string) (string, Expr, error) {
+	k := strings.Index(src, "=")
+	if k <= 0 || (k+1 < len(src) && src[k+1] == '=') {
+		return "", nil, fmt.Errorf("set clause needs the form \"ghost = expr\": %q", src)
+	}
+	name := strings.TrimSpace(src[:k])
+	e, err := parseExpr(strings.TrimSpace(src[k+1:]))
+	return name, e, err
 }
 
 type Macro struct {
@@ -791,6 +830,16 @@ func parseContractLines(pkg string, lines []string) (*PkgContracts, error) {
 				return nil, fmt.Errorf("%s: at outside func", pkg)
 			}
 			f := strings.Fields(rest)
+			if len(f) >= 4 && f[0] == "entry" && f[1] == "set" {
+				// at entry set g = E
+				src := strings.TrimSpace(rest[strings.Index(rest, "set")+3:])
+				name, e, err := parseSet(src)
+				if err != nil {
+					return nil, fmt.Errorf("%s: %s: %v", pkg, s, err)
+				}
+				cur.EntrySets = append(cur.EntrySets, &CallSiteSpec{Target: name, Clause: &Clause{Kind: "entryset", Src: src, E: e}})
+				continue
+			}
 			if len(f) < 4 || f[0] != "call" {
 				return nil, fmt.Errorf("%s: bad at clause %q", pkg, s)
 			}
@@ -802,6 +851,15 @@ func parseContractLines(pkg string, lines []string) (*PkgContracts, error) {
 			}
 			after := strings.TrimSpace(rest[strings.Index(rest, f[1])+len(f[1]):])
 			kw2, rest2 := splitKeyword(after)
+			if kw2 == "set" {
+				// at call NAME#K set g = E (ghost assignment after the call)
+				name, e, err := parseSet(rest2)
+				if err != nil {
+					return nil, fmt.Errorf("%s: %s: %v", pkg, s, err)
+				}
+				cur.CallSites = append(cur.CallSites, &CallSiteSpec{Callee: callee, Ordinal: ord, Target: name, Clause: &Clause{Kind: "callset", Src: rest2, E: e}})
+				continue
+			}
 			if kw2 != "assert" && kw2 != "assume" {
 				return nil, fmt.Errorf("%s: bad at clause %q", pkg, s)
 			}
